@@ -89,8 +89,8 @@ theorem C05_schedule_collective_station_partial (ops : Ops α B) (law : Law ops)
     (hn : ∀ v ∈ w.vehicles, v.v2g = false)
     (h : step ops env w st = .ok (w', st', cmds)) :
     ∀ s ∈ w'.stations, 0 ≤ s.currentPower ∧ s.currentPower ≤ s.maxPower := by
-  refine step_collective_station ops law env heps hc G w w' st st' cmds
-    ⟨link_reset w hfresh, stationOK_reset w hmx, ⟨hg, ?_⟩, hn⟩ h
+  refine step_collective_station (w.vehicles.map strip2) ops law env heps hc G w w' st st' cmds
+    ⟨link_reset w hfresh, stationOK_reset w hmx, ⟨hg, ?_⟩, fun _ => hn, fun _ => rfl⟩ h
   intro s hsm
   simp only [resetStations, List.mem_map] at hsm
   obtain ⟨s0, hs0, rfl⟩ := hsm
@@ -102,5 +102,57 @@ example :
     (match step toyOps (exEnvC 6) exWorldC ⟨true, false, [2, 2], [true, true], 4, [("v1", 12)], [("v1", 0)], 0⟩ with
      | .ok r => r.1.stations.all (fun s => decide (2 - 1/1000 ≤ s.currentPower ∧ s.currentPower ≤ 2))
      | .error _ => false) = true := by decide +kernel
+
+/-- **schedule (collective) WITH V2G-capable vehicles: every station carries a power within
+`± max_power` after the step — partial.**  For any battery obeying `Sched.Law`, a world with one
+connector `G` on which all stations hang, non-negative station maxima, no load entry under a station id
+when the step begins, distinct vehicle ids, and no two connected vehicles at the same station: after
+`Schedule.step` in the `collective` sub-strategy — outside the core standing time, or inside it with the
+evaluation, the excess or on-schedule branch AND the V2G pass in a charge or a discharge window, any
+number of V2G-capable vehicles — every station's `current_power` is in `[−max_power, max_power]`.
+A charge is clamped against what the station already carries; a discharge is at most `max_power` and
+starts from a station that carries a non-negative power.  (Without a V2G-capable vehicle the lower bound
+is 0: `C05_schedule_collective_station_partial` — no vehicle is discharged without V2G capability.)
+Excluded, exactly: two connected vehicles sharing one station (then two V2G discharges through the same
+station add up: `cs.current_power -= discharge` twice, each bounded by `max_power` only). -/
+theorem C05_schedule_collective_station_v2g_partial (ops : Ops α B) (law : Law ops) (env : Env α)
+    (heps : 0 ≤ env.eps) (hc : env.collective = true) (G : String) (w w' : SWorld α B)
+    (st st' : CState α) (cmds : List (String × α))
+    (hg : ∀ g ∈ w.gcs, g.id = G) (hs : ∀ s ∈ w.stations, s.parent = G)
+    (hmx : ∀ s ∈ w.stations, 0 ≤ s.maxPower)
+    (hfresh : ∀ s ∈ w.stations, ∀ g ∈ w.gcs, sdGet g.loads s.id = none)
+    (hid : (w.vehicles.map (·.id)).Nodup)
+    (hd : ∀ v1 ∈ w.vehicles, ∀ v2 ∈ w.vehicles, ∀ c, v1.cs = some c → v2.cs = some c → v1.id = v2.id)
+    (h : step ops env w st = .ok (w', st', cmds)) :
+    ∀ s ∈ w'.stations, -s.maxPower ≤ s.currentPower ∧ s.currentPower ≤ s.maxPower := by
+  refine step_collective_station_v2g (w.vehicles.map strip2) ops law env heps hc G w w' st st' cmds
+    ⟨link_reset w hfresh, stationOK_reset w hmx, ⟨hg, ?_⟩, (fun hb => Bool.noConfusion hb), fun _ => rfl⟩ ?_ ?_ h
+  · intro s hsm
+    simp only [resetStations, List.mem_map] at hsm
+    obtain ⟨s0, hs0, rfl⟩ := hsm
+    exact hs s0 hs0
+  · have : (w.vehicles.map strip2).map (·.1) = w.vehicles.map (·.id) := by
+      rw [List.map_map]; rfl
+    rw [this]; exact hid
+  · intro m1 hm1 m2 hm2 c h1 h2
+    simp only [List.mem_map] at hm1 hm2
+    obtain ⟨v1, hv1, rfl⟩ := hm1
+    obtain ⟨v2, hv2, rfl⟩ := hm2
+    exact hd v1 hv1 v2 hv2 c h1 h2
+
+/-- Non-vacuity with a V2G discharge: the feed-in example world (one V2G-capable vehicle above its
+desired SoC, discharge window) meets the hypotheses; the step succeeds and the station ends with a
+negative power (the vehicle is discharged by the 2 kW of feed-in headroom) within `−11 kW`. -/
+example :
+    (exWorldFeed.vehicles.map (·.id)).Nodup ∧
+    (∀ s ∈ exWorldFeed.stations, ∀ g ∈ exWorldFeed.gcs, sdGet g.loads s.id = none) ∧
+    (match step toyOps (exEnvC 5) exWorldFeed exStateFeed with
+     | .ok r => r.1.stations.all (fun s => decide (-s.maxPower ≤ s.currentPower ∧ s.currentPower < -1))
+     | .error _ => false) = true := by
+  refine ⟨by decide, ?_, by decide +kernel⟩
+  intro s hs g hg
+  simp only [exWorldFeed, exWorldV2G, exWorldC, exWorld, List.mem_singleton] at hs hg
+  subst hs; subst hg
+  decide
 
 end SpiceEv
